@@ -221,6 +221,8 @@ def translate(repo: Path):
                     status, why = "unrecognised", str(e)
             elif frag.defs is not None:
                 got = fragment_dump(tree, frag.defs)
+                if all(find_def(tree, q) is None for q in frag.defs):
+                    got = "<all definitions absent>"   # never matches a shape: renamed/removed code is not recognised
                 for variant, dumps in known_variants(frag).items():
                     if got in dumps:
                         value = variant
